@@ -1,5 +1,5 @@
 """Property -> rules registry.  Rules are added here as they are built; a property without rules is not claimed."""
-from .rules import determinism, panics, wiring, traversal, annot, shape, hygiene, enums, shrinking, fresh, sharing, codegen
+from .rules import determinism, panics, wiring, traversal, annot, shape, hygiene, enums, shrinking, fresh, sharing, codegen, abi
 
 
 def _thorough_only(rule):
@@ -12,6 +12,18 @@ def _thorough_only(rule):
 
 
 PROPS = {
+    "C13": {
+        "rules": [abi.rule_abi("x86_64"), abi.rule_abi("aarch64"), abi.rule_spwriters],
+        "text": "Calling convention decided on folded emission lists executed on a symbolic machine: prologue/epilogue pairing and "
+                "callee-saved coverage for every number of entry arguments (0..5 x86-64, 0..7 AArch64), argument shuffle, heap/free "
+                "initialisation, and - for every environment size 0..20, every chirality pattern of the caller-saved positions, "
+                "several placements of the printed value (register and spill) and both print variants - the print sequence: value in "
+                "the first argument register, 16-byte aligned stack pointer at the call (entry residue + prologue delta + local "
+                "pushes), and survival of every live variable register, heap/free pointers, spill slots and the stack pointer "
+                "although the call clobbers every caller-saved register, the link register, flags and memory below the stack pointer.",
+        "assumptions": ["R-SPWRITERS: only the prologue/epilogue and the save/restore helpers construct stack-pointer-modifying instructions",
+                        "ABI tables (SysV x86-64, AAPCS64) in analysis/isa.py"],
+    },
     "C06": {
         "rules": [codegen.rule_isel("x86_64"), enums.rule_enum_dispatch, traversal.rule_trav(["axcut2backend::statements::code_statement::CodeStatement"])],
         "text": "Instruction-selection templates of the x86-64 backend validated for every reachable operand placement (environment "
